@@ -1,18 +1,20 @@
 import BigDec.Model.Inverse
 import BigDec.Proofs.Arith
 import BigDec.Proofs.InvAccuracy
+import BigDec.Proofs.InvTerm
 import BigDec.Proofs.EstCode
-/-! # C12 — reciprocal (partial by nature)
+/-! # C12 — reciprocal
 
 Proved for all inputs: the Newton step is exact and squares the residual, the result carries the
 sign of `x`, negation commutes with the operation under the mirrored mode, and - partial
 correctness - whenever the loop stops, the `p+2`-digit iterate it returns agrees with `1/x` to a
 relative error of `10^-(p+1)` (`C12_exit_accuracy`), the final result being the declarative rounding
-(C07) of that iterate to `p` digits.  Not proved (`C12_inverse_full` below is a `Prop`, not a
-theorem): that the loop terminates for every input and guess, and the sharp "less than one unit of
-the p-th digit" after the final rounding.  Those are decided per generated input by the exact test
-`|R·x − 1| < unit·x` of the correspondence run, which also records non-termination of the model
-(fuel 400) as a failure. -/
+(C07) of that iterate to `p` digits; the loop terminates within `p + 10` iterations
+(`C12_loop_terminates`), and whatever is returned lies within strictly less than one unit of its last
+digit of `1/x` (`C12_accuracy_on_termination`, `C12_inverse_total`) - for every `x`, `p`, mode and
+every initial guess within 94% of `1/x` (the real f64 guess is handed over by a hook and the premise
+is observed on every generated input).  Not a theorem: "exactly `1/x` whenever `1/x` has at most `p`
+digits" - decided per generated input by the exact test of the correspondence run. -/
 namespace BigDec
 
 /-- one Newton step computes `r·(2 − x·r)` exactly (no rounding inside the step) -/
@@ -211,14 +213,82 @@ theorem C12_accuracy_on_termination_code (n : Nat) (scale : Int) (p : Nat) (m : 
     |res.value - 1 / (Dec.mk n scale).value| < (10 : ℚ) ^ (-res.scale) :=
   C12_accuracy_on_termination estGuard_ok n scale p m g fuel res hn hp hg hguess h
 
-/-- the full statement, **not proved**: termination for every input and the one-unit bound.
-    (Kept as a visible, type-checked proposition.) -/
-def C12_inverse_full : Prop :=
-  ∀ (est : Nat → Nat) (n : Nat) (scale : Int) (p : Nat) (m : Mode) (g : Dec),
-    EstOKc est → 0 < n → 0 < p →
-    0 < (Dec.mk n scale).value * g.value → (Dec.mk n scale).value * g.value < 2 →
-    ∃ r, implInverse est n scale p m g = some r ∧
-      |r.value - 1 / (Dec.mk n scale).value| < (10:ℚ) ^ (-(r.scale - ((r.digits : Int) - p)))
-where EstOKc (est : Nat → Nat) : Prop := ∀ b, 10 ^ (est (b + 1) - 1) ≤ 2 ^ b
+/-- **the iteration terminates**: for every `x > 0`, precision `p ≥ 1`, digit estimate satisfying
+    `EstOK` and initial guess within 94% of `1/x`, the loop stops within `p + 10` iterations
+    (five to bring the residual below 1/10, `p + 2` more to bring it below one unit of the last
+    digit, three to repeat or alternate: from then on every rounded Newton step takes one of at
+    most two values, `close_values_two_set`).  The model's default fuel of 400 therefore suffices
+    for every `p ≤ 390`. -/
+theorem C12_loop_terminates {est : Nat → Nat} (hest : EstOK est) (n : Nat) (scale : Int) (p : Nat) (g : Dec)
+    (fuel : Nat) (hn : 0 < n) (hp : 1 ≤ p) (hg : 0 < g.value)
+    (hguess : |1 - (Dec.mk n scale).value * g.value| ≤ 94 / 100) (hfuel : p + 10 ≤ fuel) :
+    ∃ R, invLoop est ⟨n, scale⟩ p fuel Dec.zero (invNext ⟨n, scale⟩ g) = some R := by
+  have hs : 0 < (Dec.mk n scale).value := by
+    rw [value_pos_iff]; simp; omega
+  obtain ⟨u, v, huv⟩ := close_values_two_set hest ⟨n, scale⟩ hs p hp
+  have hv := invNext_value ⟨n, scale⟩ g
+  obtain ⟨g1, g2⟩ := abs_le.mp hguess
+  have hrun : 0 < (invNext ⟨n, scale⟩ g).value := by
+    rw [hv]; apply mul_pos hg; linarith
+  have hres : |1 - (Dec.mk n scale).value * (invNext ⟨n, scale⟩ g).value| ≤ invC1 5 := by
+    rw [hv]
+    have e : 1 - (Dec.mk n scale).value * (g.value * (2 - (Dec.mk n scale).value * g.value))
+        = (1 - (Dec.mk n scale).value * g.value) ^ 2 := by ring
+    rw [e, abs_of_nonneg (sq_nonneg _)]
+    show _ ≤ (9 / 10 : ℚ)
+    nlinarith
+  have hextra : Generated.inverseExtraPrec = 2 := rfl
+  have := phase1 hest ⟨n, scale⟩ hs p hp u v huv 5 (le_refl _) fuel Dec.zero _ (by rw [hextra]; omega) hrun hres
+  exact Option.isSome_iff_exists.mp this
+
+/-- **`inverse` is total and accurate** (for guesses within 94%, fuel `≥ p + 10`): the loop returns
+    an iterate `R`; the result is `R` rounded to `p` digits by `with_precision_round` (which refuses
+    only a precision or scale outside the 64-bit range); and whatever is returned lies within
+    strictly less than one unit of its last digit of `1/x`. -/
+theorem C12_inverse_total {est : Nat → Nat} (hest : EstOK est) (n : Nat) (scale : Int) (p : Nat) (m : Mode) (g : Dec)
+    (fuel : Nat) (hn : 0 < n) (hp : 1 ≤ p) (hg : 0 < g.value)
+    (hguess : |1 - (Dec.mk n scale).value * g.value| ≤ 94 / 100) (hfuel : p + 10 ≤ fuel) :
+    ∃ R, invLoop est ⟨n, scale⟩ p fuel Dec.zero (invNext ⟨n, scale⟩ g) = some R ∧
+      implInverse est n scale p m g fuel = R.withPrecisionRound p m ∧
+      ∀ res, implInverse est n scale p m g fuel = some res →
+        |res.value - 1 / (Dec.mk n scale).value| < (10 : ℚ) ^ (-res.scale) := by
+  obtain ⟨R, hR⟩ := C12_loop_terminates hest n scale p g fuel hn hp hg hguess hfuel
+  refine ⟨R, hR, ?_, fun res h => C12_accuracy_on_termination hest n scale p m g fuel res hn hp hg hguess h⟩
+  rw [C12_result_is_rounded_iterate, hR]
+  simp only [Option.bind_some]
+  -- the exit iterate has p + 2 > p digits
+  have hs : 0 < (Dec.mk n scale).value := by
+    rw [value_pos_iff]; simp; omega
+  have hv := invNext_value ⟨n, scale⟩ g
+  obtain ⟨g1, g2⟩ := abs_le.mp hguess
+  have hrun : 0 < (invNext ⟨n, scale⟩ g).value := by
+    rw [hv]; apply mul_pos hg; linarith
+  have hres : |1 - (Dec.mk n scale).value * (invNext ⟨n, scale⟩ g).value| ≤ 9 / 10 := by
+    rw [hv]
+    have e : 1 - (Dec.mk n scale).value * (g.value * (2 - (Dec.mk n scale).value * g.value))
+        = (1 - (Dec.mk n scale).value * g.value) ^ 2 := by ring
+    rw [e, abs_of_nonneg (sq_nonneg _)]
+    nlinarith
+  have hzero : Dec.zero.value = 0 := by simp [Dec.zero, Dec.value]
+  obtain ⟨r1, r2, b, hb, heb, hRb⟩ := invLoop_exit hest ⟨n, scale⟩ hs p hp fuel Dec.zero _ R hrun hres (Or.inl hzero) hR
+  have hextra : Generated.inverseExtraPrec = 2 := rfl
+  have hdv := invNext_value ⟨n, scale⟩ b
+  obtain ⟨e1, e2⟩ := abs_le.mp heb
+  obtain ⟨hρ0, hρ⟩ := invRho_small p hp
+  have hdpos : 0 < (invNext ⟨n, scale⟩ b).value := by rw [hdv]; apply mul_pos hb; linarith
+  have hlow := withPrec_int_lower hest (invNext ⟨n, scale⟩ b) (p + Generated.inverseExtraPrec) (by omega) ((value_pos_iff _).mp hdpos)
+  rw [← hRb] at hlow
+  have hRint : 0 < R.int := (value_pos_iff R).mp r1
+  have hnd : p + 2 ≤ numDigits R.int.natAbs := by
+    have h1 : 10 ^ (p + 2 - 1) ≤ R.int.natAbs := by
+      rw [hextra] at hlow
+      have : (R.int.natAbs : Int) = R.int := by omega
+      have h2 : ((10 ^ (p + 2 - 1) : Nat) : Int) ≤ (R.int.natAbs : Int) := by rw [this]; exact_mod_cast hlow
+      exact_mod_cast h2
+    have := numDigits_mono h1
+    rw [numDigits_pow] at this
+    omega
+  have hdig : R.digits > p := by unfold Dec.digits; omega
+  rw [if_pos hdig]
 
 end BigDec
